@@ -42,6 +42,14 @@ def units(tier, seed):
             # the same system with strongly non-uniform receptor weights (the requested deltas are absolute tolerances, whatever the weights)
             m_ = A.shape[0]
             out.append(dict(names=dict(names, receptor_weights="vector"), spec=B.spec_of(A, lb, ub, K, bl, w=np.array([1.0, 0.1, 0.05, 0.5, 0.02])[:m_]), tier=tier))
+            if names["bounds"] == "ub-finite":
+                # finite NEGATIVE lower bounds are legal (intensities relative to a background): targets that need negative intensities
+                n_ = A.shape[1]
+                out.append(dict(names=dict(names, bounds="negative-lb"), spec=B.spec_of(A, -0.25 - 0.125 * (np.arange(n_) % 3), np.asarray(ub, dtype=float) * np.ones(n_), K, 0.75), tier=tier))
+    # many samples at high intensities on an under-determined system (the scales are decided by the documented objective alone,
+    # not by any property of the intensities): accurate solver, 40 in-gamut targets, upper bounds of 10
+    A35 = AL.A_palette(3, 5, seeded=False)[0][1]
+    out.append(dict(names=dict(shape="3x5", A="asc", bounds="ub-10", K="default", baseline="default"), spec=B.spec_of(A35, np.zeros(5), np.full(5, 10.0), None, None), tier=tier, many=True))
     return out
 
 
@@ -107,7 +115,7 @@ def run_unit(unit, rec):
     if O.zono_hrep(Abar, rng_ / 2) is None:
         return
     base = dict(names)
-    Xi = AL.lattice(lo, hi, (0.3, 0.7))
+    Xi = AL.lattice(lo, hi, (0.1, 0.7) if np.any(lo < 0) else (0.3, 0.7))  # with negative lower bounds: targets that need negative intensities
     inside = c0 + Xi[:: max(1, len(Xi) // 5)][:5] @ Abar.T
     fp = O.zono_facet_points(Abar, c0, lo, hi)
     out1 = fp[0][0] + 0.2 * ext * fp[0][1]
@@ -116,6 +124,9 @@ def run_unit(unit, rec):
     if tier != "quick":
         rep = np.vstack([inside] * 9 + [inside[:4], out1[None]])
         sets["fifty-one-outside"] = rep
+    if unit.get("many"):
+        Xm = np.array([lo + (hi - lo) * (0.35 + 0.3 * (((np.arange(n) * 3 + k_ * 5) % 7) / 7.0)) for k_ in range(40)])
+        sets = {"forty-inside": c0 + Xm @ Abar.T}
     neutral_given = c0 + Abar @ ((lo + hi) / 2)
     for sname, T in sets.items():
         if np.any(T.sum(1) <= 0):
@@ -127,6 +138,8 @@ def run_unit(unit, rec):
             if sname == "one-outside" and nname == "default" and wname == "one" and solver == "default-solver":
                 deltas = [(1e-4, 1e-4), (1e-6, 1e-6), (1e-3, 1e-3)]
             if solver == "clarabel" and (wname == "weighted" or nname == "given"):
+                continue
+            if unit.get("many") and (solver != "clarabel" or objective != "unity"):
                 continue
             if solver == "clarabel" and sname in ("one-outside", "five-inside"):
                 # each constraint has its OWN tolerance: unequal deltas, decided with the accurate solver
@@ -194,7 +207,7 @@ def run_unit(unit, rec):
                     bad = ("e", "fitted offset from the neutral direction is not the target's offset times the second scale")
                 else:
                     if objective == "unity" and np.all(mg >= 1e-2 * ext):
-                        if np.max(np.abs(sc - 1.0)) > 5e-3:
+                        if np.max(np.abs(sc - 1.0)) > (1e-3 if solver == "clarabel" else 5e-3):
                             bad = ("f", "all targets are in gamut but the scales are %s, not (1, 1)" % np.round(sc, 5).tolist())
                     else:
                         so = scale_opt(H, w, objective)
